@@ -23,6 +23,62 @@ OPTION_SETS = [
 ]
 
 
+# Random content-preserving option sets (DESIGN §5 C09, extension): the property quantifies over "any option set".  The
+# grammar below was explored on the unchanged tree (≈1 900 (input, option set) jobs over generated documents and the
+# repository corpus): every completed job reaches its fixpoint at generation 2 except two families that lag or never
+# settle BY CONSTRUCTION and are kept out of the quick tier and classified in the thorough tier:
+#   * --qdf without --no-original-object-ids when generation 1 and 2 number the objects differently (object streams
+#     generated, or encryption added): the '%% Original object ID' comments of generation 2 name generation 1's numbers,
+#     those of generation 3 name generation 2's; generation 3 = generation 4 (known finding C09:qdf-original-id-lag);
+#   * --linearize together with an option that changes the document in generation 1 (R_TRANSFORM): the order of objects in
+#     the linearization parts follows the numbering of the file being read, which settles one generation later (known
+#     finding C09:transform-lag); likewise two such options together (QPDFJob applies them in a fixed order, e.g. --coalesce-contents
+#     before --flatten-rotation, so generation 2 transforms again and the streams it creates get their keys sorted only in generation 3);
+#   * --preserve-unreferenced: every generation keeps the previous generation's object streams, xref stream and
+#     indirect /Length objects as unreferenced garbage and grows (known finding C09:preserve-unreferenced-accumulates).
+R_OBJSTM = [["--object-streams=preserve"], ["--object-streams=disable"], ["--object-streams=generate"]]
+R_DATA = [[], ["--stream-data=uncompress"], ["--stream-data=compress"], ["--stream-data=preserve"], ["--compress-streams=n"],
+          ["--decode-level=all"], ["--decode-level=specialized"], ["--decode-level=none"], ["--recompress-flate"],
+          ["--recompress-flate", "--compression-level=1"]]
+R_EXTRA = [["--linearize"], ["--qdf"], ["--normalize-content=y"], ["--coalesce-contents"], ["--newline-before-endstream"],
+           ["--remove-unreferenced-resources=yes"], ["--min-version=1.7"], ["--force-version=1.4"], ["--externalize-inline-images"],
+           ["--flatten-annotations=all"], ["--generate-appearances"], ["--remove-page-labels"], ["--flatten-rotation"],
+           ["--preserve-unreferenced-resources"], ["--remove-restrictions"], ["--remove-info"], ["--remove-metadata"],
+           ["--remove-structure"]]
+R_TRANSFORM = ("--flatten-rotation", "--coalesce-contents", "--flatten-annotations=all", "--externalize-inline-images", "--generate-appearances")
+R_ENC = [[], [], [], ["--allow-weak-crypto", "--encrypt", "--user-password=u", "--owner-password=o", "--bits=128", "--use-aes=n", "--"],
+         ["--allow-weak-crypto", "--encrypt", "--user-password=u", "--owner-password=o", "--bits=40", "--"],
+         ["--allow-weak-crypto", "--encrypt", "--user-password=u", "--owner-password=o", "--bits=128", "--use-aes=y", "--cleartext-metadata", "--"]]
+
+
+def random_option_set(rng, lagging=False):
+    """one option set of the grammar; lagging=True adds the two families that are known not to settle at generation 2"""
+    enc = rng.choice(R_ENC)
+    o = ["--static-aes-iv", "--static-id" if (enc or rng.random() < 0.5) else "--deterministic-id"]
+    o += rng.choice(R_OBJSTM) + rng.choice(R_DATA)
+    for e in rng.sample(R_EXTRA, rng.choice([0, 1, 1, 2, 3])):
+        o += [x for x in e if x not in o]
+    if lagging:
+        r = rng.random()
+        if r < 0.4:
+            o.append("--preserve-unreferenced")
+        elif r < 0.7:
+            if "--qdf" not in o:
+                o.append("--qdf")
+        else:
+            o += [x for x in (rng.choice(["--linearize", rng.choice(R_TRANSFORM)]), rng.choice(R_TRANSFORM)) if x not in o]
+            o = [x for x in o if x != "--qdf"]
+    else:
+        if "--qdf" in o:
+            o.append("--no-original-object-ids")
+        tr = [x for x in o if x in R_TRANSFORM]
+        if "--linearize" in o:
+            o = [x for x in o if x not in R_TRANSFORM]
+        elif len(tr) > 1:
+            o = [x for x in o if x not in tr[1:]]
+    return o + enc
+
+
 def is_v5(opts):
     return "--bits=256" in opts
 
@@ -66,6 +122,8 @@ def run(chk):
         sets = OPTION_SETS if not quick else rng.sample(OPTION_SETS[:-1], 3) + [OPTION_SETS[-1]] * (1 if ip < 2 else 0)
         for oi, opts in enumerate(sets):
             jobs.append((inp, opts, ip * 100 + oi))
+    for k in range(12 if quick else 300):
+        jobs.append((rng.choice(inputs), random_option_set(rng), 100000 + k))
 
     def one(job):
         inp, opts, jid = job
@@ -120,7 +178,8 @@ def run(chk):
         if "--static-id" in opts and static_id_hex.encode() not in ref.lower().replace(b"\n", b"") and bytes.fromhex(static_id_hex) not in ref:
             tie.append({"input": inp, "opts": opts, "difference": "static /ID bytes of the model not found in the output"})
         if "--static-aes-iv" in opts and ("--use-aes=y" in opts or "--bits=256" in opts) \
-                and b"endstream" in ref and bytes.fromhex(static_iv_hex) not in ref:
+                and b"endstream" in ref and (b"/AESV2" in ref or b"/AESV3" in ref) and bytes.fromhex(static_iv_hex) not in ref:
+            # (--force-version below the scheme's minimum makes qpdf drop the encryption: then there is no IV to find)
             # (an output without any stream has no place where the raw IV bytes must appear: strings may be re-spelt)
             tie.append({"input": inp, "opts": opts, "difference": "static AES IV bytes of the model not found in the output"})
     chk.count("perturbed-pairs", sum(4 if quick else len(perts) for _ in results), nontriv,
@@ -189,6 +248,23 @@ def run(chk):
     for ip, inp in enumerate(inputs):
         for oi, opts in enumerate(OPTION_SETS[:9]):
             fp_jobs.append((inp, opts, ip * 100 + oi))
+    for k in range(60 if quick else 1500):
+        fp_jobs.append((rng.choice(inputs), random_option_set(rng), 200000 + k))
+    # transformations on documents on which they really act: rotations own and inherited (second /Pages level carries /Rotate 90
+    # and its own /MediaBox), every /MediaBox inherited - the shape behind the fixed finding C09-flatten-rotation-inherited
+    tdoc = pdfgen.page_doc(8, marker="T", kids_levels=2, rotate={1: 90, 2: 270, 3: 180, 7: 90})
+    tp = os.path.join(wd, "transform-in.pdf")
+    open(tp, "wb").write(pdfgen.write_classic(tdoc)[0])
+    for oi, topts in enumerate([["--flatten-rotation"], ["--flatten-rotation", "--object-streams=generate"],
+                                ["--flatten-rotation", "--qdf", "--no-original-object-ids"], ["--coalesce-contents", "--object-streams=disable"],
+                                ["--flatten-rotation", "--linearize"]]
+                               + ([] if quick else [["--linearize", "--object-streams=generate", "--flatten-rotation", "--coalesce-contents"],
+                                                    ["--flatten-rotation", "--coalesce-contents", "--object-streams=disable", "--linearize"],
+                                                    ["--flatten-rotation", "--coalesce-contents"]])):
+        fp_jobs.append((tp, ["--static-id"] + topts, 400000 + oi))
+    if not quick:
+        for k in range(200):
+            fp_jobs.append((rng.choice(inputs), random_option_set(rng, lagging=True), 300000 + k))
 
     def fix(job):
         inp, opts, jid = job
@@ -215,7 +291,48 @@ def run(chk):
         fp_nt.add((inp, " ".join(opts)))
         if not same:
             sig = "fixpoint"
-            if "--use-aes=y" in opts or "--bits=256" in opts:
+            pw = ["--password=o"] if "--encrypt" in opts else []
+            o2 = list(opts)
+            if "--encrypt" in opts:
+                i, j = opts.index("--encrypt"), opts.index("--")
+                o2 = opts[:i] + opts[j + 1:]
+            g23 = [os.path.join(wd, "g%d-%d.pdf" % (jid, k)) for k in (2, 3)]
+            if "--preserve-unreferenced" in opts:
+                # explained iff the two generations differ in unreferenced objects only: the same plain rewrite (which drops
+                # them) of generation 2 and of generation 3 is byte-identical
+                n = [os.path.join(wd, "g%d-n%d.pdf" % (jid, k)) for k in (2, 3)]
+                rcs2 = [common.run_qpdf(pw + ["--static-id", "--static-aes-iv", x, y])[0] for x, y in zip(g23, n)]
+                if all(r in (0, 3) for r in rcs2) and open(n[0], "rb").read() == open(n[1], "rb").read() \
+                        and os.path.getsize(g23[1]) >= os.path.getsize(g23[0]):
+                    sig = "C09:preserve-unreferenced-accumulates"
+            elif "--qdf" in opts and "--no-original-object-ids" not in opts:
+                # explained iff generation 3 = generation 4 and generations 2 and 3 differ in the original-object-ID comments only:
+                # the same rewrite without those comments is byte-identical
+                g4 = os.path.join(wd, "g%d-4.pdf" % jid)
+                rc4 = common.run_qpdf(pw + o2 + [g23[1], g4])[0]
+                n = [os.path.join(wd, "g%d-n%d.pdf" % (jid, k)) for k in (2, 3)]
+                rcs2 = [common.run_qpdf(pw + o2 + ["--no-original-object-ids", x, y])[0] for x, y in zip(g23, n)]
+                if rc4 in (0, 3) and open(g4, "rb").read() == open(g23[1], "rb").read() and all(r in (0, 3) for r in rcs2) \
+                        and open(n[0], "rb").read() == open(n[1], "rb").read():
+                    sig = "C09:qdf-original-id-lag"
+            elif any(t in opts for t in R_TRANSFORM) and ("--linearize" in opts or sum(1 for t in R_TRANSFORM if t in opts) > 1):
+                # generation 1 CHANGES the document (new content streams get the highest object numbers of the input); the order of
+                # objects inside the parts of a linearized file and inside generated object streams follows the INPUT's numbering,
+                # which therefore settles one generation later; and with two transformations QPDFJob applies them in a fixed order
+                # (--coalesce-contents before --flatten-rotation), so generation 2 transforms once more and the streams it creates
+                # are written with /Length before /Filter, sorted only by the next generation: explained iff generation 3 = generation 4 and generations 2 and 3
+                # are the same document (identical QDF form without original-object-ID comments)
+                g4 = os.path.join(wd, "g%d-4.pdf" % jid)
+                rc4 = common.run_qpdf(pw + o2 + [g23[1], g4])[0]
+                q = [common.run_qpdf(pw + ["--static-id", "--static-aes-iv", "--qdf", "--no-original-object-ids", x, "-"])[1] for x in g23]
+                ok = rc4 in (0, 3) and open(g4, "rb").read() == open(g23[1], "rb").read() and q[0] and q[0] == q[1]
+                if ok and sum(1 for t in R_TRANSFORM if t in opts) == 1:
+                    # one transformation only: generation 1 must already have done ALL of it (generation 1 is the same document too)
+                    q1 = common.run_qpdf(pw + ["--static-id", "--static-aes-iv", "--qdf", "--no-original-object-ids", os.path.join(wd, "g%d-1.pdf" % jid), "-"])[1]
+                    ok = q1 == q[0]
+                if ok:
+                    sig = "C09:transform-lag"
+            if sig == "fixpoint" and ("--use-aes=y" in opts or "--bits=256" in opts):
                 # D16: an EMPTY stream of an AES-encrypted input has raw /Length 32, is not recognised as empty by the writer's
                 # "do not compress empty streams" rule and gains /Filter /FlateDecode in generation 2 (appended) whose position in the
                 # dictionary changes in generation 3: generations 3 and 4 are identical. Recognised by: the decrypted, uncompressed
